@@ -204,6 +204,10 @@ theorem jsV_anyOf (R S) (ss : List PyVal) (d : PyVal) :
     jsV R S (.dict [kw "anyOf" (.list ss)]) d = jsAnyL R S ss d := by
   simp [jsV, getKw, kw, keyIs, jsKws, kwOf, kwOfStr, kwNode, jsAnyV]
 
+theorem jsV_allOf (R S) (ss : List PyVal) (d : PyVal) :
+    jsV R S (.dict [kw "allOf" (.list ss)]) d = jsAllL R S ss d := by
+  simp [jsV, getKw, kw, keyIs, jsKws, kwOf, kwOfStr, kwNode, jsAllV]
+
 /-! ### arrays -/
 
 /-- a schema as the mappers emit it: a JSON object (or nothing, when the mapping raises) -/
